@@ -290,7 +290,7 @@ def run_history(case):
         steps = [{k_: v_ for k_, v_ in s_.items() if k_ != "vspec"} for s_ in steps]
     c = env.client(kind, **skw, key_prefix=cfg.get("key_prefix", b""), default_noreply=cfg.get("default_noreply", True),
                    **({"allow_unicode_keys": True} if cfg.get("allow_unicode_keys") else {}), **({"ignore_exc": True} if cfg.get("ignore_exc") else {}))
-    universe = KEYS + (UKEYS if cfg.get("allow_unicode_keys") else [])
+    universe = list(cfg.get("universe") or KEYS) + (UKEYS if cfg.get("allow_unicode_keys") else [])
     model = Model(clock, cfg.get("default_noreply", True))
     model.item_flags = {}
     model.serde = skw.get("serde")
@@ -528,6 +528,22 @@ def exhaustive_cases(tier, seed):
                    "steps": [ALPHA16[i] for i in seq]}
 
 
+def nested_key_cases(tier, seed):
+    """keys that carry the key prefix themselves: with prefix 'k' the caller's keys '0', 'k0' and 'kk0' are three different items
+    ('k0', 'kk0', 'kkk0' on the server) - every history of three (thorough: four) operations over them"""
+    a, b, c = "0", "k0", "kk0"
+    alpha = [{"op": "set", "key": a, "value": b"1", "noreply": False}, {"op": "set", "key": b, "value": b"20"}, {"op": "add", "key": b, "value": b"B", "noreply": False},
+             {"op": "add", "key": c, "value": b"C", "noreply": False}, {"op": "get", "key": a}, {"op": "get", "key": b}, {"op": "gets", "key": c},
+             {"op": "delete", "key": a, "noreply": False}, {"op": "delete", "key": b, "noreply": False}, {"op": "incr", "key": a, "delta": 5}, {"op": "incr", "key": b, "delta": 1},
+             {"op": "get_many", "keys": [a, b, c]}, {"op": "set_many", "values": {a: b"7", b: b"8", c: b"9"}, "noreply": False}, {"op": "touch", "key": b, "expire": -1, "noreply": False},
+             {"op": "append", "key": a, "value": b"0", "noreply": False}, {"op": "replace", "key": c, "value": b"R", "noreply": False}]
+    for n in (1, 2, 3, 4) if tier == "thorough" else (1, 2, 3):
+        for seq in itertools.product(range(len(alpha)), repeat=n):
+            for pfx in ((b"k", "k") if n < 3 else (b"k",)):
+                yield {"kind": ("client", "pooled", "hash", "hash-pooled")[(sum(seq) + n) % 4],
+                       "cfg": {"key_prefix": pfx, "default_noreply": bool(sum(seq) % 2), "universe": [a, b, c]}, "steps": [alpha[i] for i in seq]}
+
+
 def minimise(case, still_fails):
     steps = ddmin_list(case["steps"], lambda s: still_fails(dict(case, steps=s)))
     return dict(case, steps=steps)
@@ -608,6 +624,7 @@ def soak_cases(tier, seed):
 PARTS = [
     Part("long-lives", "enum", check, cases=soak_cases, shards={"quick": 8, "thorough": 16}),
     Part("exhaustive-short", "enum", check, cases=exhaustive_cases, exhaustive=True, minimise=minimise),
+    Part("keys-that-carry-the-prefix", "enum", check, cases=nested_key_cases, exhaustive=True, minimise=minimise),
     Part("random-histories", "hyp", check, strategy=lambda tier: history_strategy(tier).map(_drop_none_noreply),
          examples={"quick": 500, "thorough": 15000}, shards={"quick": 6, "thorough": 16}),
 ]
